@@ -81,12 +81,28 @@ def build(seed, run, overrides=None):
     g = gen.Gen(rng, knobs, env)
     discard = None
     ndup = 0
+    hot = []  # both sides of recent duplication events: they stay live receivers
     for _ in range(knobs["nops"]):
         i = None
         if len(env.heap) >= 1 and rng.random() < knobs["p_dup"]:
             i = gen_dup(g, rng)
             if i is not None:
                 ndup += 1
+                hot = ([i, g.program[i]["o"]] + hot)[:6]
+        if i is None and hot and rng.random() < 0.4:
+            # a builder call on the duplicate or on its original (the latest state of a mutable chain)
+            lat = latest_alias(env.heap)
+            ri = hot[rng.randrange(len(hot))]
+            root = ri
+            while isinstance(env.heap[root], MutableAlias):
+                root = env.heap[root].root
+            ri = lat.get(root, root)
+            v = g.deref(ri)
+            if is_object_slot(v):
+                ms = g.methods_of(v)
+                if ms:
+                    m = "replace_table" if ("replace_table" in ms and rng.random() < 0.2) else g.pick_method(v, ms)
+                    i = g.g_call(ri, m)
         if i is None:
             i = g.next_op()
         op = g.program[i]
